@@ -34,7 +34,7 @@ def condApplies (S : Schema) (o : Name) : Option (Name × Pos) → Bool
 inductive InFlat (S : Schema) (F : Name → Option FragmentDef) (o : Name) (inc : Inc) (V : List Name) :
     List Selection → FT → Prop where
   | field {alias name p args ds sub rest} : inc ds = true →
-      InFlat S F o inc V (.field alias name p args ds sub :: rest) ⟨keyOf alias name, alias.isSome, name, sub⟩
+      InFlat S F o inc V (.field alias name p args ds sub :: rest) ⟨keyOf alias name, isAliased alias name, name, sub⟩
   | inline {cond ds ss p rest t} : inc ds = true → condApplies S o cond = true → InFlat S F o inc V ss t →
       InFlat S F o inc V (.inline cond ds ss p :: rest) t
   | spread {nm np ds p rest f t} : inc ds = true → nm ∉ V → F nm = some f → fragmentTypeApplies S o f.cond = true →
@@ -235,7 +235,7 @@ theorem collectGo_spec : ∀ (n : Nat) (L : List Selection) (V : List Name) (g0 
         constructor
         · rintro ((h1 | ⟨rfl, rfl⟩) | ⟨al, h2⟩)
           · exact Or.inl h1
-          · exact Or.inr ⟨alias.isSome, by
+          · exact Or.inr ⟨isAliased alias name, by
               have := @InFlat.field c.S c.F o (included σ) V alias name p args ds sub rest hinc
               cases alias <;> exact this⟩
           · exact Or.inr ⟨al, .tail h2⟩
